@@ -5,7 +5,7 @@ from lib import vlib
 
 def klass(line):
     r = line["recipe"]
-    if r in ("claimed-length", "avp-claimed-length", "nested-groups-depth", "random-bytes", "random-mutation"):
+    if r in ("claimed-length", "avp-claimed-length", "nested-groups-depth", "random-bytes", "random-mutation", "typed-length", "unknown-avp-flood"):
         return r
     m = re.findall(r'"(len|flag|cut)"', r)
     return "structured:" + "+".join(m)
@@ -35,11 +35,12 @@ def run(ctx):
     lines = vlib.read_ndjson(tpath) if os.path.exists(tpath) else []
     # heavy cases in child processes with a time limit: deep nesting
     # depth 0 = the deepest nest a 16 MiB message can hold (about two million levels), decode only
-    heavy = [0] if quick else [4096, 16384, 0]
+    # depth -1 = four goroutines decoding messages full of AVPs nobody defines, each with another code
+    heavy = [0, -1] if quick else [4096, 16384, 0, -1]
     for depth in heavy:
         tp = os.path.join(d, "nest%d.ndjson" % depth)
         try:
-            ph = vlib.run_harness(ctx.harness, ["robust", "-out", tp, "-n", str(depth), "-x", "one=nest" if depth else "one=maxnest", "-repo", vlib.REPO], timeout=120 if quick else 300)
+            ph = vlib.run_harness(ctx.harness, ["robust", "-out", tp, "-n", str(depth), "-x", "one=nest" if depth > 0 else ("one=maxnest" if depth == 0 else "one=flood"), "-repo", vlib.REPO], timeout=120 if quick else 300)
             if ph.returncode != 0:
                 died.append("nested depth %d: %s" % (depth, ph.stderr[-300:]))
             else:
